@@ -1400,3 +1400,7 @@ CLAUSES = [
     Clause("C17.rejections", reject_cases, reject_check, tol="exact",
            doc="arguments outside a documented range (:raises: / stated interval / index set) must raise ValueError"),
 ]
+
+# every toqito call of this property is repeated with column-major copies of its array arguments (engine.call, layout twin)
+for _c in CLAUSES:
+    _c.layout_twin = True
